@@ -201,18 +201,26 @@ impl ProtocolRequestBuilder for crate::Request {
             vec![]
         };
 
+        let mut headers: Vec<HttpHeader> = self
+            .iter()
+            .flat_map(|(name, values)| {
+                values.iter().map(|value| HttpHeader {
+                    name: name.to_string(),
+                    value: value.to_string(),
+                })
+            })
+            .collect();
+
+        // The headers live in a randomly seeded hash map, so their iteration order differs
+        // from run to run. Emit them in a stable order (the sort is stable, the values of a
+        // repeated header keep their order), otherwise the same request serializes to
+        // different bytes and compares unequal from one run to the next.
+        headers.sort_by(|a, b| a.name.cmp(&b.name));
+
         Ok(HttpRequest {
             method: self.method().to_string(),
             url: self.url().to_string(),
-            headers: self
-                .iter()
-                .flat_map(|(name, values)| {
-                    values.iter().map(|value| HttpHeader {
-                        name: name.to_string(),
-                        value: value.to_string(),
-                    })
-                })
-                .collect(),
+            headers,
             body,
         })
     }
